@@ -20,6 +20,7 @@ import (
 	"testing"
 	"testing/synctest"
 
+	"github.com/icon-project/goloop/common"
 	"github.com/icon-project/goloop/common/log"
 
 	"verif/sim/kit"
@@ -51,6 +52,8 @@ func quietLogger() log.Logger {
 
 func (e engine) Run(rc *kit.RunCtx) {
 	var pv any
+	locks.reset()
+	common.SimAcquireHook, common.SimReleaseHook = locks.acquire, locks.release
 	synctest.Test(e.t, func(t *testing.T) {
 		// a panic inside the bubble must travel to the goroutine that called Run
 		// (the kit turns it into a violation of class "panic")
@@ -104,30 +107,60 @@ type getPlan struct {
 // the driver grants flusher steps one at a time; those forced steps are
 // reported so that they are part of the event log.
 func (s *sched) runOp(f func(), plan getPlan) (forced int, ok bool) {
-	done := make(chan struct{})
-	var pv any
+	return s.runOps([]func(){f}, plan)
+}
+
+// runOps: like runOp for fs[0]; fs[1:] are started, one goroutine each, the first time fs[0] is
+// found blocked (or after it has returned, if it never blocks) and run concurrently with it.
+// Tracker and manager locks are scheduling points (build-time instrumentation of
+// common/txlocator/manager.go, lockModel below): a goroutine that needs a lock held by a parked
+// goroutine parks on a channel, which the fake-clock bubble sees as blocked.
+func (s *sched) runOps(fs []func(), plan getPlan) (forced int, ok bool) {
+	n := len(fs)
+	done := make([]chan struct{}, n)
+	pvs := make([]any, n)
+	start := func(i int) {
+		done[i] = make(chan struct{})
+		go func() {
+			defer close(done[i])
+			defer func() {
+				if p := recover(); p != nil {
+					pvs[i] = p
+				}
+			}()
+			fs[i]()
+		}()
+	}
 	if plan.atGet > 0 {
 		s.v.getArm.Store(int32(plan.atGet))
 	}
-	go func() {
-		defer close(done)
-		defer func() {
-			if p := recover(); p != nil {
-				pv = p
-			}
-		}()
-		f()
-	}()
+	start(0)
+	started := 1
 	for {
 		synctest.Wait()
-		select {
-		case <-done:
+		running := 0
+		for i := 0; i < started; i++ {
+			select {
+			case <-done[i]:
+			default:
+				running++
+			}
+		}
+		if started < n {
+			// fs[0] is blocked somewhere (or finished): the others come in now
+			for ; started < n; started++ {
+				start(started)
+			}
+			continue
+		}
+		if running == 0 {
 			s.v.getArm.Store(0)
-			if pv != nil {
-				panic(pv)
+			for _, pv := range pvs {
+				if pv != nil {
+					panic(pv)
+				}
 			}
 			return forced, true
-		default:
 		}
 		if s.v.getWaiting.Load() {
 			for i := 0; i < plan.steps; i++ {
@@ -146,6 +179,53 @@ func (s *sched) runOp(f func(), plan getPlan) (forced int, ok bool) {
 		}
 		// nothing can make progress: the operation is stuck for good
 		return forced, false
+	}
+}
+
+// lockModel turns the instrumented lock sites into cooperative waits: the model decides who holds a
+// lock; a goroutine that has to wait parks on a channel until the holder releases. The real
+// sync.Mutex is still taken afterwards (never contended among instrumented sites).
+type lockModel struct {
+	mu      sync.Mutex
+	held    map[interface{}]bool
+	waiters map[interface{}][]chan struct{}
+	waits   int
+}
+
+var locks = &lockModel{held: map[interface{}]bool{}, waiters: map[interface{}][]chan struct{}{}}
+
+func (m *lockModel) reset() {
+	m.mu.Lock()
+	m.held = map[interface{}]bool{}
+	m.waiters = map[interface{}][]chan struct{}{}
+	m.waits = 0
+	m.mu.Unlock()
+}
+
+func (m *lockModel) acquire(l interface{}, _ byte, _ string) {
+	for {
+		m.mu.Lock()
+		if !m.held[l] {
+			m.held[l] = true
+			m.mu.Unlock()
+			return
+		}
+		ch := make(chan struct{})
+		m.waiters[l] = append(m.waiters[l], ch)
+		m.waits++
+		m.mu.Unlock()
+		<-ch
+	}
+}
+
+func (m *lockModel) release(l interface{}, _ byte, _ string) {
+	m.mu.Lock()
+	delete(m.held, l)
+	ws := m.waiters[l]
+	delete(m.waiters, l)
+	m.mu.Unlock()
+	for _, ch := range ws {
+		close(ch)
 	}
 }
 
